@@ -97,7 +97,8 @@ Glue(os, rs) ==
 RECURSIVE JoinSp(_)
 JoinSp(ts) == IF ts = <<>> THEN "" ELSE IF Len(ts) = 1 THEN (IF ts[1].k = "str" THEN StrEsc(ts[1].s) ELSE ts[1].s)
               ELSE (IF ts[1].k = "str" THEN StrEsc(ts[1].s) ELSE ts[1].s) \o " " \o JoinSp(Tail(ts))
-Stringize(ts) == IF Defined(ts) THEN [s |-> "\"" \o JoinSp(ts) \o "\"", k |-> "str", h |-> {}] ELSE Undef
+\* (a string literal that was itself made by # would need its escaped spelling; strings cannot be inspected here: not judged)
+Stringize(ts) == IF Defined(ts) /\ \A i \in DOMAIN ts : ts[i].k = "str" => ts[i].s \in Strs THEN [s |-> "\"" \o JoinSp(ts) \o "\"", k |-> "str", h |-> {}] ELSE Undef
 
 (***************************************************************************)
 (* Argument collection: the tokens between the parentheses of an           *)
@@ -158,7 +159,7 @@ Expand(ts, M, fuel) ==
         IF close = 0 THEN <<Undef>>                                    \* unterminated invocation
         ELSE LET P == Bind(m, SplitArgs(SubSeq(rest, 2, close - 1)))
                  hs == (t.h \cap rest[close].h) \cup {t.s}
-             IN IF "?" \in DOMAIN P THEN <<Undef>>                      \* wrong number of arguments
+             IN IF "?" \in DOMAIN P \/ ~Defined(SubSeq(rest, 2, close - 1)) THEN <<Undef>>   \* wrong number of arguments / undefined inside
                 ELSE Expand(Subst(m, 1, P, hs, <<>>, M, fuel - 1) \o SubSeq(rest, close + 1, Len(rest)), M, fuel - 1)
 
 \* i: position in the replacement list, P: parameter -> argument, os: output so far
@@ -320,7 +321,9 @@ LinesFrom(case, f, i, M, st, run, out, depth) ==
     ELSE IF ~On(st) THEN LinesFrom(case, f, i + 1, M, st, run, out, depth)              \* other directives in skipped groups
     ELSE IF k = "define" THEN
       LET d == [fun |-> l.fun, params |-> l.params, va |-> l.va, body |-> Toks(l.body)] IN
-      IF ~ValidDef(d) \/ IsMacro(M, l.name) \/ l.name \in {"defined", "__VA_ARGS__"}    \* redefinition: constraint violation unless identical
+      \* redefinition: constraint violation unless identical.  #define of a name given with -U: the cppcheck manual gives -U its own
+      \* meaning ("hide certain #ifdef code paths"), gcc's -U only cancels earlier definitions - left open
+      IF ~ValidDef(d) \/ IsMacro(M, l.name) \/ l.name \in {"defined", "__VA_ARGS__"} \/ \E u \in DOMAIN case.undefs : case.undefs[u] = l.name
       THEN [out |-> Flush \o <<Undef>>, M |-> M]
       ELSE LinesFrom(case, f, i + 1, DefineM(M, l.name, d), st, <<>>, Flush, depth)
     ELSE IF k = "undef" THEN LinesFrom(case, f, i + 1, UndefM(M, l.name), st, <<>>, Flush, depth)
@@ -345,15 +348,18 @@ Forced(case, i, M, out) ==
   ELSE LET r == File(case, case.forced[i], M, 1) IN Forced(case, i + 1, r.M, out \o r.out)
 
 \* the token spellings a conforming preprocessor hands to phase 7 for the case, <<"?undef">> somewhere if not defined
-ExpectedToks(case) ==
+ExpectedFull(case) ==
   LET M0 == UndefAll(case.undefs, 1, CmdMacros(case.defs, 1, NoMacros))
       fr == Forced(case, 1, M0, <<>>)
       r == File(case, case.main, fr.M, 0)
-  IN fr.out \o r.out
+  IN [out |-> fr.out \o r.out, M |-> r.M]
+ExpectedToks(case) == ExpectedFull(case).out
 Expected(case) == Spell(ExpectedToks(case))
 
 (***************************************************************************)
 (* Case generation.  Draw(c, j): the j-th pseudo-random number of case c.  *)
+(* (The case sets take a dummy argument: TLC evaluates every definition    *)
+(* without arguments when it starts, whatever the step.)                   *)
 (***************************************************************************)
 Seed == atoi(IOEnv.SEED) % 40000
 H1(c, j) == ((c % 46337) * 31337 + (j % 4000) * 7919 + Seed * 13 + (c \div 46337) * 101) % 1000003
@@ -367,23 +373,23 @@ MainOnly(lines) == [files |-> <<[dir |-> "src", name |-> "main", lines |-> lines
 
 \* -------- stratum "small": exhaustive, one function-like macro F(x) with a body of <= 3 tokens, every source line of a list
 SmallAlphabet == <<"x", "a", "F", "#", "##", "1", ",">>
-SmallBodies == UNION {[1..n -> {SmallAlphabet[i] : i \in DOMAIN SmallAlphabet}] : n \in 0..atoi(IOEnv.SMALLN)}
+SmallBodies(u) == UNION {[1..n -> {SmallAlphabet[i] : i \in DOMAIN SmallAlphabet}] : n \in 0..atoi(IOEnv.SMALLN)}
 SmallSources == << <<"F", "(", "a", ")">>, <<"F", "(", ")">>, <<"F", "(", "F", "(", "a", ")", ")">>,
                    <<"F", "(", "F", ")", "(", "a", ")">>, <<"F", "(", "a", "b", ")", "F">>, <<"F", "(", "(", "a", ",", "b", ")", ")">>,
                    <<"F", "(", Str1, "+", Str2, ")">>, <<"F", "F", "(", "1", ")", "(", "2", ")">> >>
-SmallCases ==
-  LET bodies == SetToSeq({b \in SmallBodies : ValidDef([fun |-> TRUE, params |-> <<"x">>, va |-> FALSE, body |-> Toks(b)])})
+SmallCases(u) ==
+  LET bodies == SetToSeq({b \in SmallBodies(0) : ValidDef([fun |-> TRUE, params |-> <<"x">>, va |-> FALSE, body |-> Toks(b)])})
   IN [n \in 1..(Len(bodies) * Len(SmallSources)) |->
         LET b == bodies[1 + ((n - 1) \div Len(SmallSources))] s == SmallSources[1 + ((n - 1) % Len(SmallSources))]
         IN MainOnly(<<Def("F", TRUE, <<"x">>, FALSE, b), Txt(s), Txt(<<";">>)>>)]
 
 \* -------- stratum "pair": exhaustive, object-like A and function-like F(x), bodies of <= 2 tokens
-PairA == UNION {[1..n -> {"a", "A", "F", "##", "1", "(", ")"}] : n \in 0..2}
-PairF == UNION {[1..n -> {"x", "A", "F", "#", "##"}] : n \in 0..2}
+PairA(u) == UNION {[1..n -> {"a", "A", "F", "##", "1", "(", ")"}] : n \in 0..2}
+PairF(u) == UNION {[1..n -> {"x", "A", "F", "#", "##"}] : n \in 0..2}
 PairSources == << <<"A">>, <<"F", "(", "A", ")">>, <<"A", "(", "a", ")">>, <<"F", "(", "F", ")", "(", "A", ")">>, <<"F", "(", ")", "A", "F">> >>
-PairCases ==
-  LET as == SetToSeq({b \in PairA : ValidDef([fun |-> FALSE, params |-> <<>>, va |-> FALSE, body |-> Toks(b)])})
-      fs == SetToSeq({b \in PairF : ValidDef([fun |-> TRUE, params |-> <<"x">>, va |-> FALSE, body |-> Toks(b)])})
+PairCases(u) ==
+  LET as == SetToSeq({b \in PairA(0) : ValidDef([fun |-> FALSE, params |-> <<>>, va |-> FALSE, body |-> Toks(b)])})
+      fs == SetToSeq({b \in PairF(0) : ValidDef([fun |-> TRUE, params |-> <<"x">>, va |-> FALSE, body |-> Toks(b)])})
       N == Len(as) * Len(fs) * Len(PairSources)
   IN [n \in 1..N |->
         LET s == PairSources[1 + ((n - 1) % Len(PairSources))]
@@ -498,14 +504,14 @@ IncludeCase(c) ==
 
 \* all strata; IOEnv.SMALLN bounds the body length of stratum "small", NEXPAND / NCOND / NINCLUDE are the sizes of the seeded strata
 Tagged(cs, name) == [i \in DOMAIN cs |-> [stratum |-> name, case |-> cs[i]]]
-AllCases ==
-  Tagged(SmallCases, "small") \o Tagged(PairCases, "pair")
+AllCases(u) ==
+  Tagged(SmallCases(0), "small") \o Tagged(PairCases(0), "pair")
   \o Tagged([c \in 1..atoi(IOEnv.NEXPAND) |-> ExpandCase(c)], "expand")
   \o Tagged([c \in 1..atoi(IOEnv.NCOND) |-> CondCase(c)], "cond")
   \o Tagged([c \in 1..atoi(IOEnv.NINCLUDE) |-> IncludeCase(c)], "include")
 
 ASSUME Step = "gen" =>
-  LET cs == AllCases
+  LET cs == AllCases(0)
       \* defined: the semantics defines the output of the case (the others are not run at all)
       out == [i \in DOMAIN cs |-> [id |-> i, stratum |-> cs[i].stratum, case |-> cs[i].case, defined |-> Defined(ExpectedToks(cs[i].case))]]
   IN ndJsonSerialize(IOEnv.OUT, out) /\ PrintT(<<"GEN", Len(out)>>) /\ PrintT(<<"DEFINED", Len(SelectSeq(out, LAMBDA o : o.defined))>>)
@@ -526,6 +532,35 @@ Verdict(case, ob) ==
   ELSE IF ~ob.gcc.ok \/ ob.gcc.toks # e THEN "model"
   ELSE IF ob.cppcheck.ok /\ ob.cppcheck.toks = e THEN "ok" ELSE "bad"
 
+\* Classes of deviations (verdict "bad"): a description of the input / of the difference, one report key per class;
+\* "other" cases are reduced by the driver and keyed by their core.
+\*   error:<kind>      cppcheck stopped with a preprocessor error (kind = its message without the names)
+\*   hash-in-text      a # token outside a directive and outside a macro definition
+\*   painted-name-replaced   (no conditionals) the expected output keeps a macro name that may not be replaced again (6.10.3.4p2)
+\*   function-like-name-not-invoked   (no conditionals) cppcheck's output keeps NAME ( of a function-like macro that the spec replaces
+\*   object-like-name-not-replaced    (no conditionals) cppcheck's output keeps the name of an object-like macro that the spec replaces
+\*   if-mixes-equality-and-relational an #if / #elif expression uses == or != together with < > <= >=
+Class(case, ob) ==
+  LET full == ExpectedFull(case)
+      allLines == FoldLeft(LAMBDA a, f : a \o f.lines, <<>>, case.files)
+      hasCond == \E i \in DOMAIN allLines : allLines[i].k \in {"if", "ifdef", "ifndef", "elif", "else", "endif"}
+      hashInText == \E i \in DOMAIN allLines : allLines[i].k = "text" /\ \E j \in DOMAIN allLines[i].toks : allLines[i].toks[j] = "#"
+      painted == \E i \in DOMAIN full.out : full.out[i].k = "id" /\ full.out[i].s \in full.out[i].h /\ IsMacro(full.M, full.out[i].s)
+      ct == ob.cppcheck.toks
+      notInvoked == \E i \in 1..(Len(ct) - 1) : IsMacro(full.M, ct[i]) /\ full.M[ct[i]].fun /\ ct[i + 1] = "("
+                       /\ ~\E j \in DOMAIN full.out : full.out[j].s = ct[i]
+      notReplaced == \E i \in DOMAIN ct : IsMacro(full.M, ct[i]) /\ ~full.M[ct[i]].fun /\ ~\E j \in DOMAIN full.out : full.out[j].s = ct[i]
+      eqRel == \E i \in DOMAIN allLines : allLines[i].k \in {"if", "elif"}
+                  /\ (\E j \in DOMAIN allLines[i].toks : allLines[i].toks[j] \in {"==", "!="})
+                  /\ (\E j \in DOMAIN allLines[i].toks : allLines[i].toks[j] \in {"<", ">", "<=", ">="})
+  IN IF ~ob.cppcheck.ok /\ ob.cppcheck.kind # "" THEN "error:" \o ob.cppcheck.kind
+     ELSE IF hashInText THEN "hash-in-text"
+     ELSE IF ~hasCond /\ painted THEN "painted-name-replaced"
+     ELSE IF ~hasCond /\ notInvoked THEN "function-like-name-not-invoked"
+     ELSE IF ~hasCond /\ notReplaced THEN "object-like-name-not-replaced"
+     ELSE IF eqRel THEN "if-mixes-equality-and-relational"
+     ELSE "other"
+
 \* a case is non-trivial if preprocessing changes it: some macro is replaced, a group skipped, or a file included
 NonTrivial(case) ==
   LET e == Expected(case)
@@ -535,8 +570,9 @@ NonTrivial(case) ==
 ASSUME Step = "judge" =>
   LET cases == ndJsonDeserialize(IOEnv.CASES)
       obs == ndJsonDeserialize(IOEnv.OBS)
-      vs == [i \in DOMAIN cases |-> [id |-> cases[i].id, v |-> Verdict(cases[i].case, obs[i]), expected |-> Expected(cases[i].case),
-                                     nontrivial |-> NonTrivial(cases[i].case)]]
+      vs == [i \in DOMAIN cases |-> LET v == Verdict(cases[i].case, obs[i]) IN
+                                     [id |-> cases[i].id, v |-> v, expected |-> Expected(cases[i].case),
+                                      class |-> IF v = "bad" THEN Class(cases[i].case, obs[i]) ELSE "", nontrivial |-> NonTrivial(cases[i].case)]]
       Count(x) == Len(SelectSeq(vs, LAMBDA r : r.v = x))
   IN /\ Len(obs) = Len(cases) /\ \A i \in DOMAIN obs : obs[i].id = cases[i].id
      /\ ndJsonSerialize(IOEnv.OUT, SelectSeq(vs, LAMBDA r : r.v \in {"bad", "model"}))
@@ -569,7 +605,7 @@ LawCase(case) ==
      /\ \A i \in DOMAIN r1 : (r1[i].k = "id" /\ IsMacro(M, r1[i].s) /\ ~M[r1[i].s].fun) => r1[i].s \in r1[i].h
 
 ASSUME Step = "laws" =>
-  LET cs == SmallCases \o PairCases
+  LET cs == SmallCases(0) \o PairCases(0)
       bad == SelectSeq(cs, LAMBDA c : ~LawCase(c))
   IN PrintT(<<"LAWS", Len(cs)>>) /\ PrintT(<<"BAD", Len(bad)>>) /\ bad = <<>>
 =============================================================================
